@@ -130,7 +130,7 @@ theorem skipToNextLine_RC {a st : PState σ} (h0 : RC E a 0 st) :
   have h2 : RC E a 0 (skipLoopF E (fuelOf E st) st) := RC.line' E h0 (skipLoopF_reachL E _)
   simp only
   split
-  · rename_i h; exact RC.advNL E h2 h (by omega)
+  · rename_i h; exact RC.advNL E h2 h
   · exact RC.mono E h2 (by omega)
 
 theorem parseComment_RC {a st : PState σ} (h0 : RC E a 0 st) (h : st.current.ty = .comment) :
@@ -155,7 +155,7 @@ theorem includePathF_RC (n acc) {a st : PState σ} (h0 : RC E a 0 st) :
     RC E a 0 (includePathF E n st acc).2 := RC.line' E h0 (includePathF_reachL E n acc)
 
 grind_pattern RC.mono => RC E a tl b, RC E a tl' b
-grind_pattern RC.advOther => RC E a tl st, advance E st
+grind_pattern RC.advOther => RC E a 0 st, advance E st
 grind_pattern RC.advNL => RC E a tl st, advance E st
 grind_pattern RC.advIndent => RC E a tl st, advance E st
 grind_pattern RC.err => RC E a 0 st, error st msg
@@ -198,8 +198,8 @@ theorem parsePosting_RC' {a st : PState σ} (h1 : RC E a 0 (advance E st)) (h : 
   have := postingOpen_closing E (advance E st)
   grind (splits := 20)
 
-theorem postingsF_RC (n : Nat) {a st : PState σ} {tl} (h0 : RC E a tl st) (h1 : tl ≤ 2) :
-    RC E a 2 (postingsF E n st).2 := by
+theorem postingsF_RC (n : Nat) {a st : PState σ} {tl} (h0 : RC E a tl st) (h1 : tl ≤ 1) :
+    RC E a 1 (postingsF E n st).2 := by
   induction n generalizing st tl with
   | zero => unfold postingsF; exact RC.mono E h0 h1
   | succ n ih =>
@@ -212,104 +212,104 @@ theorem postingsF_RC (n : Nat) {a st : PState σ} {tl} (h0 : RC E a tl st) (h1 :
       simp only
       split
       · rename_i hnl
-        exact ih (RC.advNL E hp hnl (Nat.le_refl _)) (by omega)
+        exact ih (RC.advNL E hp hnl) (by omega)
       · exact ih hp (by omega)
 
 theorem txHeader_RC {a st : PState σ} (h0 : RC E a 0 st) : RC E a 1 (txHeader E st).2 := by
   unfold txHeader
   grind (splits := 20)
 
-theorem parseTransaction_RC {a st : PState σ} (h0 : RC E a 0 st) : RC E a 2 (parseTransaction E st).2 := by
+theorem parseTransaction_RC {a st : PState σ} (h0 : RC E a 0 st) : RC E a 1 (parseTransaction E st).2 := by
   unfold parseTransaction
   have hd := parseDate_RC E h0
   split
   · rename_i heq; rw [heq] at hd
-    exact RC.mono E (skipToNextLine_RC E hd) (by omega)
+    exact skipToNextLine_RC E hd
   · rename_i heq; rw [heq] at hd
     simp only
     exact postingsF_RC E _ (txHeader_RC E hd) (by omega)
 
 theorem parseSubdirectivesF_RC (n : Nat) {a st : PState σ} {tl} (m) (h0 : RC E a tl st) (h1 : tl ≤ 1) :
-    RC E a 2 (parseSubdirectivesF E n st m).2 := by
+    RC E a 1 (parseSubdirectivesF E n st m).2 := by
   induction n generalizing st tl m with
-  | zero => unfold parseSubdirectivesF; exact RC.mono E h0 (by omega)
+  | zero => unfold parseSubdirectivesF; exact RC.mono E h0 h1
   | succ n ih =>
     unfold parseSubdirectivesF
     split
-    · exact RC.mono E h0 (by omega)
+    · exact RC.mono E h0 h1
     · rename_i h
       have hnl : st.current.ty = .newline := by simpa using h
-      have hA := RC.advNL E h0 hnl h1
+      have hA := RC.advNL E h0 hnl
       simp only
       split
-      · exact RC.mono E hA (by omega)
+      · exact hA
       · rename_i h2
         have hi : (advance E st).current.ty = .indent := by simpa using h2
         have hB := RC.advIndent E hA hi
         split
         · rename_i hc
-          exact ih _ (RC.advOther E hB (by simp [hc]) (by simp [hc]) (by omega)) (by omega)
+          exact ih _ (RC.advOther E hB (by simp [hc]) (by simp [hc])) (by omega)
         · split
           · exact ih _ hB (by omega)
           · split
             · rename_i ht
-              exact ih _ (RC.advOther E hB (by simp [ht]) (by simp [ht]) (by omega)) (by omega)
+              exact ih _ (RC.advOther E hB (by simp [ht]) (by simp [ht])) (by omega)
             · split
               · rename_i hdv
-                have hC := RC.advOther E hB (by simp [hdv]) (by simp [hdv]) (by omega)
+                have hC := RC.advOther E hB (by simp [hdv]) (by simp [hdv])
                 exact ih _ (subValueF_RC E _ _ hC) (by omega)
               · exact ih _ (skipToNextLine_RC E hB) (by omega)
 
 theorem parseSubdirectives_RC {a st : PState σ} (h0 : RC E a 0 st) :
-    RC E a 2 (parseSubdirectives E st).2 := parseSubdirectivesF_RC E _ _ h0 (by omega)
+    RC E a 1 (parseSubdirectives E st).2 := parseSubdirectivesF_RC E _ _ h0 (by omega)
 
 grind_pattern parseSubdirectives_RC => RC E a 0 st, parseSubdirectives E st
 
 theorem parseAccountDirective_RC (p) {a st : PState σ} (h0 : RC E a 0 st) :
-    RC E a 2 (parseAccountDirective E p st).2 := by
+    RC E a 1 (parseAccountDirective E p st).2 := by
   unfold parseAccountDirective
   grind (splits := 20)
 
 theorem parseCommodityDirective_RC (p) {a st : PState σ} (h0 : RC E a 0 st) :
-    RC E a 2 (parseCommodityDirective E p st).2 := by
+    RC E a 1 (parseCommodityDirective E p st).2 := by
   unfold parseCommodityDirective
   grind (splits := 20)
 
 theorem parseIncludeDirective_RC (p) {a st : PState σ} (h0 : RC E a 0 st) :
-    RC E a 2 (parseIncludeDirective E p st).2 := by
+    RC E a 1 (parseIncludeDirective E p st).2 := by
   unfold parseIncludeDirective
   grind (splits := 20)
 
 theorem parsePriceDirective_RC (p) {a st : PState σ} (h0 : RC E a 0 st) :
-    RC E a 2 (parsePriceDirective E p st).2 := by
+    RC E a 1 (parsePriceDirective E p st).2 := by
   unfold parsePriceDirective
   grind (splits := 20)
 
 theorem parseDefaultCommodityDirective_RC (p) {a st : PState σ} (h0 : RC E a 0 st) :
-    RC E a 2 (parseDefaultCommodityDirective E p st).2 := by
+    RC E a 1 (parseDefaultCommodityDirective E p st).2 := by
   unfold parseDefaultCommodityDirective
   grind (splits := 20)
 
 theorem parseYearDirective_RC (p) {a st : PState σ} (h0 : RC E a 0 st) :
-    RC E a 2 (parseYearDirective E p st).2 := by
+    RC E a 1 (parseYearDirective E p st).2 := by
   unfold parseYearDirective
   have hy : ∀ y, RC E a 0 { st with defaultYear := y } := fun y => RC.year E h0 y
   grind (splits := 20)
 
 theorem parseDirective_RC {a st : PState σ} (h0 : RC E a 0 st) (h : st.current.ty = .directive) :
-    RC E a 2 (parseDirective E st).2 := by
+    RC E a 1 (parseDirective E st).2 := by
   unfold parseDirective
-  have h1 := RC.advOther E h0 (by simp [h]) (by simp [h]) (by omega)
+  have h1 := RC.advOther E h0 (by simp [h]) (by simp [h])
   grind (splits := 20) [parseAccountDirective_RC, parseCommodityDirective_RC, parseIncludeDirective_RC,
     parsePriceDirective_RC, parseDefaultCommodityDirective_RC, parseYearDirective_RC]
 
 theorem parseDirective_RC' {a st : PState σ} (h1 : RC E a 0 (advance E st)) :
-    RC E a 2 (parseDirective E st).2 := by
+    RC E a 1 (parseDirective E st).2 := by
   unfold parseDirective
   grind (splits := 20) [parseAccountDirective_RC, parseCommodityDirective_RC, parseIncludeDirective_RC,
     parsePriceDirective_RC, parseDefaultCommodityDirective_RC, parseYearDirective_RC]
 
-theorem journalStep_RC (st : PState σ) : RC E st 2 (journalStep E st).2 := by
+theorem journalStep_RC (st : PState σ) : RC E st 1 (journalStep E st).2 := by
   have h0 := RC.refl E st
   unfold journalStep
   grind (splits := 20) [parseTransaction_RC, parseDirective_RC]
